@@ -31,14 +31,21 @@ OP = "models.pddl_operator"
 GE = "models.grounded_effect"
 
 
-def _apply_matcher(prestate: str):
+APPLY = "Operator.apply"          # public anchors; private helpers are analysed in place (sa.inline)
+EFFECT_APPLY = "GroundedEffect.apply"
+
+
+def _apply_matcher(prestate: str, hold_calls=None):
+    """atoms of the guard of Operator.apply; `hold_calls`: {id(call): atom} to distinguish antecedent tests by receiver"""
     def m(e):
-        if isinstance(e, ast.Name) and e.id == "skip_validation":
+        if isinstance(e, ast.Name) and e.id.split("__i")[0] == "skip_validation":
             return "skip"
-        if isinstance(e, ast.Name) and e.id == "allow_inapplicable_actions":
+        if isinstance(e, ast.Name) and e.id.split("__i")[0] == "allow_inapplicable_actions":
             return "allow"
         if isinstance(e, ast.Call) and isinstance(e.func, ast.Attribute):
             if e.func.attr == "antecedents_hold":
+                if hold_calls is not None:
+                    return hold_calls.get(id(e), "hold:other")
                 return "hold"
             if e.func.attr == "is_applicable":
                 return "applicable"
@@ -64,49 +71,62 @@ def _is_copy_of_param(paths, param: str) -> bool:
     return bool(good) and not bad
 
 
+def _apply_anchor(repo: Repo) -> FuncInfo:
+    f = L.fn(repo, APPLY)
+    if "previous_state" not in f.params:
+        raise AnalysisError(f"{APPLY}: pre-state parameter 'previous_state' not found")
+    return f
+
+
+def _kind_of_apply(p, a: ast.Call) -> str:
+    """'universal' when the applied effect object was built inside apply (the forall pass), else 'group'"""
+    tr = p.trace(a.func.value)
+    return "universal" if any(x[0].startswith("fresh:") for x in tr) else "group"
+
+
 def rule_antecedent(repo: Repo) -> RuleResult:
     r = RuleResult("C03.antecedent", "a conditional / universal effect group is applied iff its antecedents hold in the pre-state",
                    "PDDL conditional effects")
-    for fname in ("Operator.apply", "Operator._apply_universal_effects"):
-        f = repo.func(fname)
-        prestate = "previous_state"
-        if prestate not in f.params:
-            raise AnalysisError(f"{fname}: pre-state parameter 'previous_state' not found")
-        G = L.Guards(f, _apply_matcher(prestate))
-        p = L.prov(repo, f)
-        applies = _effect_apply_calls(repo, f)
-        holds = [c for c in L.calls_in(f.node) if callee_name(c) == "antecedents_hold"]
-        if not applies:
-            raise AnalysisError(f"{fname}: no call of GroundedEffect.apply found")
-        if not holds:
-            raise AnalysisError(f"{fname}: no call of antecedents_hold found (guard idiom not recognised)")
-        for h in holds:
-            r.site(L.site(f, h, "antecedent test"))
-            tr = p.trace(h.args[0]) if h.args else set()
-            if tr and all(x == (f"param:{prestate}",) for x in tr):
-                r.ok({"function": f.qn, "antecedents_evaluated_on": "pre-state parameter"})
-            else:
-                r.fail(Finding("C03.antecedent", f, "antecedent-state", f"antecedents are evaluated on {sorted(tr)[:3]}, not on the pre-state parameter", node=h))
-            if len(h.args) > 1 or h.keywords:
-                extra = h.args[1] if len(h.args) > 1 else h.keywords[0].value
-                if not (isinstance(extra, ast.Constant) and extra.value is False):
-                    r.fail(Finding("C03.antecedent", f, "antecedent-bypass", f"antecedents_hold is called with a bypass flag {unparse(extra)}", node=h))
-        for a in applies:
-            r.site(L.site(f, a, "effect application"))
-            node = G.node_of_expr(a)
-            table = {}
-            for skip, hold in itertools.product([False, True], repeat=2):
-                val = {"hold": hold, "applicable": True, "allow": False}
-                if "skip" in G.atoms_seen:
-                    val["skip"] = skip
-                table[(skip, hold)] = node in G.reach(val)
-            sample = {"function": f.qn, "apply_reachable": {f"skip={s},hold={h}": v for (s, h), v in table.items()}}
-            bad = [(s, h) for (s, h), v in table.items() if v != h]
-            if not bad:
-                r.ok(sample)
-            else:
-                r.fail(Finding("C03.antecedent", f, "guard:effect.apply",
-                               f"effect.apply reachability differs from 'antecedents hold' for (skip_validation, hold) in {bad}", node=a), sample)
+    f = _apply_anchor(repo)
+    prestate = "previous_state"
+    p = L.prov(repo, f)
+    applies = _effect_apply_calls(repo, f)
+    holds = [c for c in L.calls_in(f.node) if callee_name(c) == "antecedents_hold" and isinstance(c.func, ast.Attribute)]
+    if not applies:
+        raise AnalysisError(f"{APPLY}: no call of GroundedEffect.apply found")
+    if not holds:
+        raise AnalysisError(f"{APPLY}: no call of antecedents_hold found (guard idiom not recognised)")
+    for h in holds:
+        r.site(L.site(f, h, "antecedent test"))
+        tr = p.trace(h.args[0]) if h.args else (p.trace(h.keywords[0].value) if h.keywords else set())
+        if tr and all(x == (f"param:{prestate}",) for x in tr):
+            r.ok({"function": f.qn, "antecedents_evaluated_on": "pre-state parameter"})
+        else:
+            r.fail(Finding("C03.antecedent", f, "antecedent-state", f"antecedents are evaluated on {sorted(tr)[:3]}, not on the pre-state parameter", node=h))
+        extra = h.args[1] if len(h.args) > 1 else next((k.value for k in h.keywords if k.arg == "allow_inapplicable_actions"), None)
+        if extra is not None and not (isinstance(extra, ast.Constant) and extra.value is False):
+            r.fail(Finding("C03.antecedent", f, "antecedent-bypass", f"antecedents_hold is called with a bypass flag {unparse(extra)}", node=h))
+    recv_of = {id(h): frozenset(p.trace(h.func.value)) for h in holds}
+    for a in applies:
+        r.site(L.site(f, a, "effect application"))
+        mine = frozenset(p.trace(a.func.value))
+        hold_atoms = {hid: ("hold" if tr == mine else "hold:other") for hid, tr in recv_of.items()}
+        G = L.Guards(f, _apply_matcher(prestate, hold_atoms))
+        table = {}
+        for skip, hold in itertools.product([False, True], repeat=2):
+            val = {"hold": hold, "applicable": True, "allow": False}
+            if "skip" in G.atoms_seen:
+                val["skip"] = skip
+            table[(skip, hold)] = G.reaches_expr(val, a)
+        sample = {"function": f.qn, "apply_reachable": {f"skip={s},hold={h}": v for (s, h), v in table.items()}}
+        bad = [(s, h) for (s, h), v in table.items() if v != h]
+        if "hold" not in hold_atoms.values():
+            r.fail(Finding("C03.antecedent", f, "guard:effect.apply", f"{unparse(a, 60)} is not guarded by the antecedents of the effect it applies", node=a), sample)
+        elif not bad:
+            r.ok(sample)
+        else:
+            r.fail(Finding("C03.antecedent", f, "guard:effect.apply",
+                           f"effect.apply reachability differs from 'antecedents hold' for (skip_validation, hold) in {bad}", node=a), sample)
     r.require_sites(4)
     return r
 
@@ -114,24 +134,18 @@ def rule_antecedent(repo: Repo) -> RuleResult:
 def rule_copy(repo: Repo) -> RuleResult:
     r = RuleResult("C03.copy", "effects are applied to previous_state.copy(), never to the parameter; the copy is returned",
                    "the successor is a new state")
-    f = repo.func("Operator.apply")
+    f = _apply_anchor(repo)
     p = L.prov(repo, f)
+    ga = repo.func(EFFECT_APPLY)
     for a in _effect_apply_calls(repo, f):
         r.site(L.site(f, a, "mutated state argument"))
-        tr = p.trace(a.args[0]) if a.args else set()
+        st = L.arg_of(a, ga, "state")
+        tr = p.trace(st) if st is not None else set()
         if _is_copy_of_param(tr, "previous_state"):
             r.ok({"call": unparse(a), "state": "previous_state.copy()"})
         else:
-            r.fail(Finding("C03.copy", f, "mutated-arg:effect.apply", f"state handed to effect.apply derives from {sorted(tr)[:3]}", node=a))
-    ucalls = [c for c in L.calls_in(f.node) if callee_name(c) == "_apply_universal_effects"]
-    for u in ucalls:
-        r.site(L.site(f, u, "universal pass"))
-        if len(u.args) >= 2:
-            t0, t1 = p.trace(u.args[0]), p.trace(u.args[1])
-            if all(x == ("param:previous_state",) for x in t0) and t0 and _is_copy_of_param(t1, "previous_state"):
-                r.ok({"call": unparse(u), "args": "(pre-state, copy)"})
-            else:
-                r.fail(Finding("C03.copy", f, "args:_apply_universal_effects", f"universal pass receives {sorted(t0)[:2]} / {sorted(t1)[:2]}; expected (pre-state, copy)", node=u))
+            role = "mutated-arg:effect.apply" if _kind_of_apply(p, a) == "group" else "args:_apply_universal_effects"
+            r.fail(Finding("C03.copy", f, role, f"state handed to effect.apply derives from {sorted(tr)[:3]}", node=a))
     for ret in L.func_returns(f):
         r.site(L.site(f, ret, "return"))
         tr = p.trace(ret.value) if ret.value is not None else set()
@@ -140,10 +154,10 @@ def rule_copy(repo: Repo) -> RuleResult:
         else:
             r.fail(Finding("C03.copy", f, "return", f"apply returns {sorted(tr)[:3]} instead of the copy", node=ret))
     # is_init of the successor is False
-    g = C.cfg_of(f.node)
     found = False
     for n in ast.walk(f.node):
-        if isinstance(n, ast.Assign) and any(isinstance(t, ast.Attribute) and t.attr == "is_init" for t in n.targets):
+        if isinstance(n, ast.Assign) and any(isinstance(t, ast.Attribute) and t.attr == "is_init" and _is_copy_of_param(p.trace(t.value), "previous_state")
+                                             for t in n.targets):
             found = found or (isinstance(n.value, ast.Constant) and n.value.value is False)
     r.site(f.qn + " [is_init reset]")
     if found:
@@ -158,80 +172,50 @@ MUT_REMOVE = {"discard", "remove", "pop", "difference_update", "clear", "popitem
 MUT_INSERT = {"add", "update", "append", "setdefault", "extend", "insert"}
 
 
-def _polarity_allowed(repo: Repo, f: FuncInfo, loop: ast.For, mut_node: ast.AST) -> Optional[Set[bool]]:
-    """for which values of <elem>.is_positive can the mutation inside `loop` execute?"""
+def _predicate_map_mutations(repo: Repo, f: FuncInfo):
+    """(removals, insertions) on the predicate map of the state parameter of GroundedEffect.apply (flattened)"""
     p = L.prov(repo, f)
-    g = C.cfg_of(f.node)
-    allowed = set()
 
-    def atom(e):
-        if isinstance(e, ast.Attribute) and e.attr == "is_positive":
-            return "pos"
-        return None
+    def in_map(e) -> bool:
+        return any(x[0] == "param:state" and "attr:state_predicates" in x for x in p.trace(e))
 
-    # comprehension filter feeding the loop
-    filt: List[ast.AST] = []
-    it = loop.iter
-    cands = [it]
-    if isinstance(it, ast.Name):
-        for d in p.rd.defs_reaching(p.node_of(it), it.id):
-            st = g.stmt[d]
-            if isinstance(st, ast.Assign):
-                cands.append(st.value)
-    for c in cands:
-        if isinstance(c, (ast.ListComp, ast.SetComp, ast.GeneratorExp)):
-            for gen in c.generators:
-                filt.extend(gen.ifs)
-        if isinstance(c, ast.Call) and callee_name(c) == "filter" and c.args and isinstance(c.args[0], ast.Lambda):
-            filt.append(c.args[0].body)
-    for pos in (False, True):
-        val = lambda e, pos=pos: (pos if atom(e) else None)
-        passes = all(C.eval3(x, val) is not False for x in filt)
-        if not passes:
-            continue
-        seen = C.reach_under(g, val, start=g.node_of(loop))
-        mn = g.node_containing(mut_node)
-        if mn in seen:
-            allowed.add(pos)
-    return allowed
+    removes, inserts = [], []
+    for c in L.calls_in(f.node):
+        if isinstance(c.func, ast.Attribute) and in_map(c.func.value):
+            if c.func.attr in MUT_REMOVE:
+                removes.append(c)
+            elif c.func.attr in MUT_INSERT:
+                # map.setdefault(k, set()) without a following .add is a lookup, the insertion is the .add on its result
+                inserts.append(c)
+    for n in ast.walk(f.node):
+        if isinstance(n, ast.Assign):
+            for t in n.targets:
+                if isinstance(t, ast.Subscript) and in_map(t.value):
+                    inserts.append(n)
+        if isinstance(n, ast.Delete):
+            for t in n.targets:
+                if isinstance(t, ast.Subscript) and in_map(t.value):
+                    removes.append(n)
+    return removes, inserts
+
+
+def _is_lookup_only(c) -> bool:
+    """`m.setdefault(k, set())` / `m.get(k, set())`: creates at most an empty entry"""
+    return isinstance(c, ast.Call) and isinstance(c.func, ast.Attribute) and c.func.attr == "setdefault" and len(c.args) == 2 \
+        and isinstance(c.args[1], ast.Call) and not c.args[1].args and callee_name(c.args[1]) in ("set", "list")
 
 
 def rule_delete_add(repo: Repo) -> RuleResult:
     r = RuleResult("C03.delete_add", "unconditional effects delete then add; deletions come from negative, additions from positive literals",
                    "PDDL delete-then-add semantics")
-    f = repo.func("GroundedEffect._apply_discrete_effects")
-    target_param = [x for x in f.params if x != f.self_name]
-    if not target_param:
-        raise AnalysisError("GroundedEffect._apply_discrete_effects: predicate-map parameter not found")
-    tp = target_param[0]
-    p = L.prov(repo, f)
+    f = L.fn(repo, EFFECT_APPLY)
+    if "state" not in f.params:
+        raise AnalysisError(f"{EFFECT_APPLY}: parameter 'state' not found")
     g = C.cfg_of(f.node)
-    removes, inserts = [], []
-    for c in L.calls_in(f.node):
-        if isinstance(c.func, ast.Attribute):
-            tr = p.trace(c.func.value)
-            derived = any(x[0] == f"param:{tp}" for x in tr)
-            if derived and c.func.attr in MUT_REMOVE:
-                removes.append(c)
-            elif derived and c.func.attr in MUT_INSERT:
-                inserts.append(c)
-    for n in ast.walk(f.node):
-        if isinstance(n, ast.Assign):
-            for t in n.targets:
-                if isinstance(t, ast.Subscript) and any(x[0] == f"param:{tp}" for x in p.trace(t.value)):
-                    inserts.append(n)
-        if isinstance(n, ast.Delete):
-            for t in n.targets:
-                if isinstance(t, ast.Subscript) and any(x[0] == f"param:{tp}" for x in p.trace(t.value)):
-                    removes.append(n)
+    removes, inserts = _predicate_map_mutations(repo, f)
+    inserts = [x for x in inserts if not _is_lookup_only(x)]
     if not removes or not inserts:
-        raise AnalysisError(f"_apply_discrete_effects: removal/insertion idiom not recognised (removes={len(removes)}, inserts={len(inserts)})")
-    # an `add` on a set obtained with .get(k, set()) that is then stored back counts as an insertion too
-    for c in L.calls_in(f.node):
-        if isinstance(c.func, ast.Attribute) and c.func.attr in MUT_INSERT and c not in inserts:
-            tr = p.trace(c.func.value)
-            if any(x[0] == f"param:{tp}" for x in tr):
-                inserts.append(c)
+        raise AnalysisError(f"{EFFECT_APPLY}: removal/insertion idiom on state.state_predicates not recognised (removes={len(removes)}, inserts={len(inserts)})")
     ins_nodes = {g.node_containing(x) if not isinstance(x, ast.stmt) else g.node_of(x) for x in inserts}
     rem_nodes = {g.node_containing(x) if not isinstance(x, ast.stmt) else g.node_of(x) for x in removes}
     r.site(f.qn + " [ordering]")
@@ -244,34 +228,26 @@ def rule_delete_add(repo: Repo) -> RuleResult:
     else:
         st = g.stmt[sorted(late)[0]]
         r.fail(Finding("C03.delete_add", f, "order:remove-after-insert", "a removal from the predicate map can execute after an insertion (add-then-delete)", node=st))
-    parents = {}
-    for par in ast.walk(f.node):
-        for ch in ast.iter_child_nodes(par):
-            parents[ch] = par
 
-    def enclosing_for(n):
-        cur = n
-        while cur in parents:
-            cur = parents[cur]
-            if isinstance(cur, ast.For):
-                # outermost for loop over effects: keep climbing to the top-level one
-                top = cur
-                c2 = cur
-                while c2 in parents:
-                    c2 = parents[c2]
-                    if isinstance(c2, ast.For):
-                        top = c2
-                return top
+    def atom(e):
+        if isinstance(e, ast.Attribute) and e.attr == "is_positive" and isinstance(e.ctx, ast.Load):
+            return "pos"
         return None
 
+    G = L.Guards(f, atom)
+    reach = {pos: G.reach({"pos": pos}) for pos in (False, True)}
     for kind, muts, want in (("removal", removes, {False}), ("insertion", inserts, {True})):
         for mnode in muts:
-            loop = enclosing_for(mnode)
             r.site(L.site(f, mnode, f"{kind} polarity"))
-            if loop is None:
-                r.fail(Finding("C03.delete_add", f, f"polarity:{kind}", f"{kind} is not inside a loop over the effects; polarity filter not found", node=mnode))
-                continue
-            allowed = _polarity_allowed(repo, f, loop, mnode)
+            anchor = mnode if not isinstance(mnode, ast.stmt) else (mnode.value if isinstance(mnode, ast.Assign) else mnode)
+            allowed = set()
+            for pos in (False, True):
+                if isinstance(anchor, ast.stmt):
+                    ok = g.node_of(anchor) in reach[pos]
+                else:
+                    ok = G.reaches_expr({"pos": pos}, anchor, seen=reach[pos])
+                if ok:
+                    allowed.add(pos)
             if allowed == want:
                 r.ok({"kind": kind, "executes_for_is_positive": sorted(allowed)})
             else:
@@ -283,42 +259,59 @@ def rule_delete_add(repo: Repo) -> RuleResult:
 def rule_frame(repo: Repo) -> RuleResult:
     r = RuleResult("C03.frame", "a delete effect removes only the fact with the same ground text; an add effect inserts the effect's own fact under its predicate's key",
                    "every other fact is unchanged")
-    f = repo.func("GroundedEffect._apply_discrete_effects")
+    f = L.fn(repo, EFFECT_APPLY)
     p = L.prov(repo, f)
     g = C.cfg_of(f.node)
-    tp = [x for x in f.params if x != f.self_name][0]
-    discards = [c for c in L.calls_in(f.node) if isinstance(c.func, ast.Attribute) and c.func.attr in MUT_REMOVE and
-                any(x[0] == f"param:{tp}" for x in p.trace(c.func.value))]
+    removes, inserts = _predicate_map_mutations(repo, f)
+    discards = [c for c in removes if isinstance(c, ast.Call)]
     r.site(f.qn + " [removal guard]")
     if not discards:
-        raise AnalysisError("_apply_discrete_effects: removal call not recognised")
+        raise AnalysisError(f"{EFFECT_APPLY}: removal call not recognised")
+
+    def is_state_fact(tr) -> bool:
+        # a direct path into the map of the state (content that other statements put into aliases of the map does not count)
+        return any(x[0] == "param:state" and "attr:state_predicates" in x and not any(s.startswith("in:") for s in x) for x in tr)
+
+    def is_effect(tr) -> bool:
+        return any(x[0] == "self" and "attr:grounded_discrete_effects" in x for x in tr) and not is_state_fact(tr)
+
+    def text_of(e):
+        """(kind, receiver paths) when e is <x>.untyped_representation of the effect / of a state fact"""
+        tr = p.trace(e)
+        pths = {x[:-1] for x in tr if x and x[-1] == "attr:untyped_representation"}
+        if not pths or len(pths) != len(tr):
+            return None, pths
+        if is_state_fact(pths):
+            return "fact", pths
+        if is_effect(pths):
+            return "effect", pths
+        return None, pths
+
     ok = True
     why = ""
+    dom = C.dominators(g)
     for d in discards:
-        # the removal is dominated by an equality test between the ground text of the state fact and of the (positive copy of the) effect
         dn = g.node_containing(d)
-        dom = C.dominators(g)
         guards = []
         for n in dom[dn]:
             st = g.stmt[n]
             if isinstance(st, ast.If):
                 for cmp_ in ast.walk(st.test):
-                    if isinstance(cmp_, ast.Compare) and len(cmp_.ops) == 1 and isinstance(cmp_.ops[0], ast.Eq):
-                        a, b = ast.unparse(cmp_.left), ast.unparse(cmp_.comparators[0])
-                        if a.endswith(".untyped_representation") and b.endswith(".untyped_representation") and a != b:
-                            guards.append((n, cmp_))
+                    if isinstance(cmp_, ast.Compare) and len(cmp_.ops) == 1 and isinstance(cmp_.ops[0], (ast.Eq, ast.NotEq)):
+                        (ka, pa), (kb, pb) = text_of(cmp_.left), text_of(cmp_.comparators[0])
+                        if {ka, kb} == {"effect", "fact"}:
+                            guards.append((n, cmp_, pa if ka == "fact" else pb))
         if not guards:
-            ok, why = False, "no dominating equality of the two ground texts"
+            ok, why = False, "no dominating equality of the ground texts of the state fact and of the effect"
             continue
-        # the removed element is the compared state fact, and the branch taken is the 'equal' one
-        n, cmp_ = guards[-1]
-        seen_eq = C.reach_under(g, lambda e, c=cmp_: True if e is c else None, start=n)
-        seen_ne = C.reach_under(g, lambda e, c=cmp_: False if e is c else None, start=n)
+        n, cmp_, fact_paths = guards[-1]
+        eq = isinstance(cmp_.ops[0], ast.Eq)
+        seen_eq = C.reach_under(g, lambda e, c=cmp_: eq if e is c else None, start=n)
+        seen_ne = C.reach_under(g, lambda e, c=cmp_: (not eq) if e is c else None, start=n)
         if not (dn in seen_eq and dn not in seen_ne):
             ok, why = False, "the removal is not confined to the branch where the texts are equal"
         arg = d.args[0] if d.args else None
-        sides = {ast.unparse(cmp_.left).rsplit(".", 1)[0], ast.unparse(cmp_.comparators[0]).rsplit(".", 1)[0]}
-        if arg is None or ast.unparse(arg) not in sides:
+        if arg is None or set(p.trace(arg)) != set(fact_paths):
             ok, why = False, f"the removed element {unparse(arg) if arg is not None else None} is not the fact that was compared"
         recv_key = [x for x in p.trace(d.func.value, keys=True) if "askey" in x]
         if not any("attr:lifted_untyped_representation" in x for x in recv_key):
@@ -328,25 +321,38 @@ def rule_frame(repo: Repo) -> RuleResult:
     else:
         r.fail(Finding("C03.frame", f, "removal-guard", f"delete effects can remove other facts: {why}", node=discards[0]))
     r.site(f.qn + " [insertion key]")
-    stores = [n for n in ast.walk(f.node) if isinstance(n, ast.Assign) and len(n.targets) == 1 and isinstance(n.targets[0], ast.Subscript) and
-              any(x[0] == f"param:{tp}" for x in p.trace(n.targets[0].value))]
-    adds = [c for c in L.calls_in(f.node) if isinstance(c.func, ast.Attribute) and c.func.attr == "add"]
-    ok = bool(adds)
-    for a in adds:
-        at = p.trace(a.args[0]) if a.args else set()
-        ok = ok and all(x[-1] == "elem" or "call:copy" in x for x in at if x[0] == "self") and any(x[0] == "self" and "attr:grounded_discrete_effects" in x for x in at)
-    for s_ in stores:
-        kt = p.trace(s_.targets[0].slice)
-        ok = ok and any(x[-1] == "attr:lifted_untyped_representation" and "attr:grounded_discrete_effects" in x for x in kt)
-    gets = [c for c in L.calls_in(f.node) if isinstance(c.func, ast.Attribute) and c.func.attr in ("get", "setdefault") and
-            any(x[0] == f"param:{tp}" for x in p.trace(c.func.value))]
-    for c in gets:
-        kt = p.trace(c.args[0]) if c.args else set()
-        ok = ok and any(x[-1] == "attr:lifted_untyped_representation" for x in kt)
+    ok = False
+    why = "no insertion of the effect's fact found"
+    for x in inserts:
+        if isinstance(x, ast.Call) and x.func.attr in ("add", "append") and x.args:
+            at = p.trace(x.args[0])
+            if not is_effect(at):
+                continue
+            ok = True
+            if not all(pth[-1] == "elem" or "call:copy" in pth for pth in at if pth[0] == "self"):
+                ok, why = False, "the inserted object is not the effect's own fact"
+            kt = [pth for pth in p.trace(x.func.value, keys=True) if "askey" in pth]
+            # the set was obtained by map[k] / map.get(k, ..) / map.setdefault(k, ..): k must be the effect's lifted text
+            keyed = any("attr:lifted_untyped_representation" in pth and "attr:grounded_discrete_effects" in pth for pth in kt)
+            for c in L.calls_in(f.node):
+                if isinstance(c.func, ast.Attribute) and c.func.attr in ("get", "setdefault") and c.args and \
+                        any(q[0] == "param:state" and "attr:state_predicates" in q for q in p.trace(c.func.value)):
+                    k = p.trace(c.args[0])
+                    if any(q[-1] == "attr:lifted_untyped_representation" and "attr:grounded_discrete_effects" in q for q in k):
+                        keyed = True
+                    else:
+                        ok, why = False, "the set an add effect goes into is looked up under another key than its lifted predicate text"
+            if not keyed:
+                ok, why = False, "the set an add effect goes into is not the one keyed by its lifted predicate text"
+    for s_ in inserts:
+        if isinstance(s_, ast.Assign):
+            kt = p.trace(s_.targets[0].slice)
+            if not any(x[-1] == "attr:lifted_untyped_representation" and "attr:grounded_discrete_effects" in x for x in kt):
+                ok, why = False, "the predicate map is stored under another key than the effect's lifted predicate text"
     if ok:
         r.ok({"insertion": "map[effect.lifted_untyped_representation] (existing set or a new one) .add(effect)"})
     else:
-        r.fail(Finding("C03.frame", f, "insertion-key", "an add effect is not inserted as itself under its own predicate's key"))
+        r.fail(Finding("C03.frame", f, "insertion-key", f"an add effect is not inserted as itself under its own predicate's key: {why}"))
     r.require_sites(2)
     return r
 
@@ -366,7 +372,7 @@ def _fluent_env_params(repo: Repo, f: FuncInfo, depth: int = 0) -> Set[str]:
         elif depth < 2:
             cat, tg = repo.resolve_call(f, c)
             for _k, t, _c in tg:
-                if t is None or t.qn == f.qn or t.mod.short not in (GE, OP):
+                if t is None or t.qn == f.qn or t.mod.short not in (GE, OP) or t.name in getattr(f, "inlined_names", ()):
                     continue
                 inner = _fluent_env_params(repo, t, depth + 1)
                 for ip in inner:
@@ -381,48 +387,50 @@ def _fluent_env_params(repo: Repo, f: FuncInfo, depth: int = 0) -> Set[str]:
 def rule_prestate_rhs(repo: Repo) -> RuleResult:
     r = RuleResult("C03.prestate_rhs", "numeric right-hand sides are evaluated on the fluents of the state before the action",
                    "PDDL: effects are evaluated in the pre-state; result independent of processing order")
-    ga = repo.func("GroundedEffect.apply")
+    ga = L.fn(repo, EFFECT_APPLY)
     env_params = _fluent_env_params(repo, ga)
-    mutated = "state"
     r.site(ga.qn + " [fluent environment]")
-    for fname in ("Operator.apply", "Operator._apply_universal_effects"):
-        f = repo.func(fname)
-        p = L.prov(repo, f)
-        for a in _effect_apply_calls(repo, f):
-            r.site(L.site(f, a, "evaluation state"))
-            ok = False
-            seen = {}
-            for ep in env_params:
-                arg = L.arg_of(a, ga, ep)
-                if arg is None:
-                    continue
-                tr = p.trace(arg)
-                seen[ep] = sorted(tr)[:2]
-                if tr and all(x == ("param:previous_state",) for x in tr):
-                    ok = True
-            if ok:
-                r.ok({"call": unparse(a), "evaluation_state": "pre-state parameter"})
-            else:
-                r.fail(Finding("C03.prestate_rhs", f, "rhs-env:effect.apply",
-                               f"numeric right-hand sides of this effect group are evaluated on {seen or 'the state being modified'} "
-                               f"(GroundedEffect.apply reads fluents from parameter(s) {sorted(env_params)}); with two firing groups the "
-                               f"result depends on set iteration order", node=a))
+    f = _apply_anchor(repo)
+    p = L.prov(repo, f)
+    for a in _effect_apply_calls(repo, f):
+        r.site(L.site(f, a, "evaluation state"))
+        ok = False
+        seen = {}
+        for ep in env_params:
+            arg = L.arg_of(a, ga, ep)
+            if arg is None:
+                continue
+            tr = p.trace(arg)
+            seen[ep] = sorted(tr)[:2]
+            if tr and all(x == ("param:previous_state",) for x in tr):
+                ok = True
+        if ok:
+            r.ok({"call": unparse(a), "evaluation_state": "pre-state parameter"})
+        else:
+            r.fail(Finding("C03.prestate_rhs", f, "rhs-env:effect.apply",
+                           f"numeric right-hand sides of this effect group are evaluated on {seen or 'the state being modified'} "
+                           f"(GroundedEffect.apply reads fluents from parameter(s) {sorted(env_params)}); with two firing groups the "
+                           f"result depends on set iteration order", node=a))
     # inside one group: all evaluations precede all stores
     p = L.prov(repo, ga)
     g = C.cfg_of(ga.node)
+
+    def fluent_map(e) -> bool:
+        return any(x[0] == "param:state" and "attr:state_fluents" in x for x in p.trace(e))
+
     stores = []
     for n in ast.walk(ga.node):
         if isinstance(n, ast.Assign):
             for t in n.targets:
-                if isinstance(t, ast.Subscript) and any("attr:state_fluents" in x for x in p.trace(t.value)):
+                if isinstance(t, ast.Subscript) and fluent_map(t.value):
                     stores.append(n)
         if isinstance(n, ast.Expr) and isinstance(n.value, ast.Call) and isinstance(n.value.func, ast.Attribute) and \
-                n.value.func.attr in ("update", "__setitem__", "setdefault") and any("attr:state_fluents" in x for x in p.trace(n.value.func.value)):
+                n.value.func.attr in ("update", "__setitem__", "setdefault") and fluent_map(n.value.func.value):
             stores.append(n)
-    evals = [c for c in L.calls_in(ga.node) if callee_name(c) in ("_update_single_numeric_expression", "set_expression_value", "evaluate_expression")]
+    evals = L.calls_reaching(repo, ga, ("set_expression_value", "evaluate_expression"))
     r.site(ga.qn + " [evaluate-then-store]")
     if not stores or not evals:
-        raise AnalysisError("GroundedEffect.apply: evaluation / store idiom not recognised")
+        raise AnalysisError(f"{EFFECT_APPLY}: evaluation / store idiom not recognised (stores={len(stores)}, evaluations={len(evals)})")
     st_nodes = {g.node_of(s) for s in stores}
     after = set()
     for s in st_nodes:
@@ -438,40 +446,69 @@ def rule_prestate_rhs(repo: Repo) -> RuleResult:
     return r
 
 
+def _enclosing_loops(f: FuncInfo, node: ast.AST) -> List[ast.For]:
+    pm = L.parents_of(f)
+    out, cur = [], node
+    while cur in pm:
+        cur = pm[cur]
+        if isinstance(cur, ast.For):
+            out.append(cur)
+    return out
+
+
 def rule_universal(repo: Repo) -> RuleResult:
     r = RuleResult("C03.universal", "the universal-effect pass runs on every normal path of apply before it returns",
                    "forall effects are part of the successor")
-    f = repo.func("Operator.apply")
+    f = _apply_anchor(repo)
     g = C.cfg_of(f.node)
-    ucalls = [c for c in L.calls_in(f.node) if callee_name(c) == "_apply_universal_effects"]
+    p = L.prov(repo, f)
     r.site(f.qn)
-    if not ucalls:
+    uni = [a for a in _effect_apply_calls(repo, f) if _kind_of_apply(p, a) == "universal"]
+    if not uni:
         r.fail(Finding("C03.universal", f, "missing:_apply_universal_effects", "apply never runs the universal-effect pass"))
         return r
-    dom = C.dominators(g)
-    un = {g.node_containing(c) for c in ucalls}
-    rets = [n for n in g.nodes() if g.kind[n] == "return"]
-    bad = [n for n in rets if not (dom[n] & un)]
-    if bad:
-        r.fail(Finding("C03.universal", f, "path:return-without-universal", "a return of apply is reachable without the universal-effect pass", node=g.stmt[bad[0]]))
+    a = uni[0]
+    loops = _enclosing_loops(f, a)
+    obj_loops = [lp for lp in loops if any("attr:problem_objects" in x for x in p.trace(lp.iter))]
+
+    def atom(e):
+        if isinstance(e, ast.Compare) and len(e.ops) == 1 and isinstance(e.ops[0], (ast.Is, ast.IsNot, ast.Eq, ast.NotEq)) and \
+                isinstance(e.comparators[0], ast.Constant) and e.comparators[0].value is None and \
+                any("attr:problem_objects" in x for x in p.trace(e.left)):
+            return "noobjects" if isinstance(e.ops[0], (ast.Is, ast.Eq)) else "!noobjects"
+        m = _apply_matcher("previous_state")(e)
+        return m
+
+    if not obj_loops:
+        r.fail(Finding("C03.universal", f, "range:loops", "the universal pass does not range over the problem objects"))
+        r.site(f.qn + " [ranges]")
+        return r
+    head = g.node_of(obj_loops[-1])
+    G = L.Guards(f, atom)
+    bad = None
+    for allow, skip in itertools.product([False, True], repeat=2):
+        val = {"noobjects": False, "allow": allow, "skip": skip}
+        seen = G.reach(val, avoid=[head])
+        if g.exit in seen:
+            bad = (allow, skip)
+    if bad is not None:
+        r.fail(Finding("C03.universal", f, "path:return-without-universal",
+                       f"apply can return without the universal-effect pass although the problem objects are known (allow_inapplicable_actions, skip_validation = {bad})", node=obj_loops[-1]))
     else:
-        r.ok({"returns": len(rets), "dominated_by_universal_pass": True})
+        r.ok({"every_return_passes_the_loop_over_problem_objects": True})
     # the pass iterates over all problem objects and all universal effects of the action
-    u = repo.func("Operator._apply_universal_effects")
-    p = L.prov(repo, u)
-    loops = [n for n in ast.walk(u.node) if isinstance(n, ast.For)]
     srcs = set()
     for lp in loops:
         for pth in p.trace(lp.iter):
             srcs.add("/".join(s for s in pth if s.startswith(("self", "attr:"))))
-    r.site(u.qn + " [ranges]")
+    r.site(f.qn + " [ranges]")
     need = {"problem_objects": any("attr:problem_objects" in s for s in srcs),
             "universal_effects": any("attr:lifted_universal_effects" in s or "attr:universal_effects" in s for s in srcs),
             "conditional_effects": any("attr:conditional_effects" in s for s in srcs)}
     if all(need.values()):
         r.ok({"loops_over": sorted(k for k, v in need.items() if v)})
     else:
-        r.fail(Finding("C03.universal", u, "range:loops", f"the universal pass does not range over {[k for k, v in need.items() if not v]}"))
+        r.fail(Finding("C03.universal", f, "range:loops", f"the universal pass does not range over {[k for k, v in need.items() if not v]}"))
     r.require_sites(2)
     return r
 
@@ -480,7 +517,7 @@ def rules(repo: Repo, tier: str) -> List[RuleResult]:
     from . import c06, c07
     out = [rule_antecedent(repo), rule_copy(repo), rule_delete_add(repo), rule_frame(repo), c12.rule_assign(repo, "C03.assign"),
            rule_prestate_rhs(repo), rule_universal(repo)]
-    out.append(c06.rule_range(repo, "C03.range", "Operator._apply_universal_effects", ("GroundedEffect",)))
-    out.append(c06.rule_conform(repo, "C03.conform", only_funcs=("Operator._apply_universal_effects",), floor=0))
+    out.append(c06.rule_range(repo, "C03.range", APPLY, ("GroundedEffect",)))
+    out.append(c06.rule_conform(repo, "C03.conform", only_funcs=(APPLY,), floor=0))
     out.append(c07.rule_escape(repo, "C03.escape"))
     return out
